@@ -1,41 +1,32 @@
-import J5V.Walker.PP.Field2Scalars
+import J5V.Walker.PP.Field2KeyEnt
 /-!
-# Print/parse, second slice: `FieldFacts` of `key` fields (formats; no entity-key options), and
+# Print/parse, second slice: `FieldFacts` of `key` fields (formats and entity-key options), and
 `scalarFacts : fieldOk2 f → FieldFacts f`
 -/
 namespace J5V.Walker
 open J5V.Bcl
 
-theorem entKeyBcl_nil' {ek : J5V.Compile.EntKey} (pfx : List Str) (flag : Bool)
-    (h : (match ek with
-       | .nokey => true
-       | .ek .plain none => true
-       | _ => false) = true) : entKeyBcl pfx flag ek = [] := by
-  cases ek with
-  | nokey => rfl
-  | ek k t => cases k <;> cases t <;> first | rfl | cases h
-
-theorem key_fieldBody (fmt : J5V.Compile.KeyFmt) {ek : J5V.Compile.EntKey} (l : Bool) (pfx : List Str) (flag : Bool)
-    (h : (match ek with
-       | .nokey => true
-       | .ek .plain none => true
-       | _ => false) = true) :
-    fieldBody (.key fmt ek [] l) pfx flag = keyFmtBody pfx fmt := by
-  show rulesBcl pfx [] ++ keyFmtBody pfx fmt ++ entKeyBcl pfx flag ek = _
-  rw [entKeyBcl_nil' pfx flag h]
+theorem key_fieldBody (fmt : J5V.Compile.KeyFmt) (ek : J5V.Compile.EntKey) (l : Bool) (pfx : List Str) :
+    fieldBody (.key fmt ek [] l) pfx false = keyFmtBody pfx fmt ++ entKeyBcl pfx false ek := by
+  show rulesBcl pfx [] ++ keyFmtBody pfx fmt ++ entKeyBcl pfx false ek = _
   simp [rulesBcl]
 
-/-- `ek` without entity-key options -/
-def ekTrivial (ek : J5V.Compile.EntKey) : Bool :=
-  match ek with
-  | .nokey => true
-  | .ek .plain none => true
-  | _ => false
+/-- the final key message -/
+def keyTypeVal (fmt : J5V.Compile.KeyFmt) (ek : J5V.Compile.EntKey) : Node :=
+  .msg [false, fmt != .none, false, false, (entKeyNode ek).isSome]
+    [.absent, keyFmtNode fmt, .absent, .absent, (entKeyNode ek).getD .absent]
 
-theorem key_ok1 {fmt : J5V.Compile.KeyFmt} {ek : J5V.Compile.EntKey} (hfmt : keyFmtOk fmt = true)
-    (hek : ekTrivial ek = true) : fieldOk1 (.key fmt ek [] false) = true := by
-  simp only [fieldOk1, List.isEmpty_nil, Bool.not_false, Bool.and_self, Bool.true_and, Bool.and_eq_true]
-  exact ⟨hfmt, hek⟩
+theorem key_fieldMsg (fmt : J5V.Compile.KeyFmt) (ek : J5V.Compile.EntKey) :
+    fieldMsg j5Env (.key fmt ek [] false) = oneofMsg 15 14 (keyTypeVal fmt ek) := by
+  simp only [fieldMsg, fieldOneof, typeSchema, rulesVals, List.isEmpty_nil, if_true, List.nil_append]
+  rw [entKeyVals_eq]
+  unfold keyTypeVal
+  generalize entKeyNode ek = oE
+  cases fmt <;> simp only [keyFmtVals] <;>
+    simp only [mkMsg_of schemaOf_Field, mkMsg_of schemaOf_KeyField, mkMsg_of schemaOf_KeyFormat,
+      mkMsg_of schemaOf_KeyFormatInformal, mkMsg_of schemaOf_KeyFormatCustom,
+      mkMsg_of schemaOf_KeyFormatUUID, mkMsg_of schemaOf_KeyFormatID62] <;>
+    cases oE <;> rfl
 
 /-- the key message after the qualifier -/
 def keyQualVal : J5V.Compile.KeyFmt → Node
@@ -62,32 +53,38 @@ theorem keyQ_of_select {fmt : J5V.Compile.KeyFmt} {ek : J5V.Compile.EntKey} {w :
     exact keyFmt_select hw hpi hspec ht hv hmiss' root d
 
 def keyFacts (fmt : J5V.Compile.KeyFmt) (ek : J5V.Compile.EntKey) (hfmt : keyFmtOk fmt = true)
-    (hek : ekTrivial ek = true) : FieldFacts (.key fmt ek [] false) where
+    (hek : entKeyOk ek = true) : FieldFacts (.key fmt ek [] false) where
   qualNames := [b!"format"]
-  bodyNames := [b!"format"]
+  bodyNames := [b!"format", b!"entity", b!"foreign"]
   blockNames := []
   tailP := fun _ _ => True
   qualVal := keyQualVal fmt
-  typeVal := typeMsg (.key fmt ek [] false)
+  typeVal := keyTypeVal fmt ek
   pi := kind_pi2 rfl
   spec := kind_spec2 rfl
   specName := kindSpec_name
   specTypeSelect := kindSpec_typeSelect
-  msg := fieldMsg_eq (key_ok1 hfmt hek)
+  msg := key_fieldMsg fmt ek
   namesSub := by
     intro n hn
-    simp only [List.mem_singleton, or_self] at hn
-    subst hn; decide
+    simp only [List.mem_cons, List.not_mem_nil, or_false] at hn
+    rcases hn with rfl | rfl | rfl | rfl <;> decide
   qualSub := by intro _ n hn; exact .inl (List.mem_singleton.mp hn)
   blockSub := by intro kw hkw; cases hkw
   found := by
     intro d n hn
-    simp only [List.mem_singleton] at hn
-    subst hn
-    show (findBlock b!"format" [cfOf sKeyField specKeyField d]).isSome = true
-    rw [findBlock_prop' (show aliasLookup b!"format" specKeyField.aliases = none by decide +kernel)
-      (show sKeyField.hasProperty b!"format" = true by decide +kernel)]
-    rfl
+    show (findBlock n [cfOf sKeyField specKeyField d]).isSome = true
+    simp only [List.mem_cons, List.not_mem_nil, or_false] at hn
+    rcases hn with rfl | rfl | rfl
+    · rw [findBlock_prop' (show aliasLookup b!"format" specKeyField.aliases = none by decide +kernel)
+        (show sKeyField.hasProperty b!"format" = true by decide +kernel)]
+      rfl
+    · rw [findBlock_prop' (show aliasLookup b!"entity" specKeyField.aliases = none by decide +kernel)
+        (propInfo_hasProperty pi_KeyField_entity)]
+      rfl
+    · rw [findBlock_alias' (show aliasLookup b!"foreign" specKeyField.aliases = some [b!"entity", b!"foreignKey"]
+        by decide +kernel)]
+      rfl
   runQ := by
     cases fmt with
     | none =>
@@ -102,41 +99,47 @@ def keyFacts (fmt : J5V.Compile.KeyFmt) (ek : J5V.Compile.EntKey) (hfmt : keyFmt
     | id62 =>
       exact keyQ_of_select (w := b!"id62") rfl (by decide) pi_KeyFormat_id62 specOf_KeyFormatID62 rfl rfl
   runB := by
-    intro sc pfx flag a b C hr _
-    rw [key_fieldBody fmt false pfx flag hek]
-    cases fmt with
-    | none => exact doBody_nil _ _ _
-    | informal => exact doBody_nil _ _ _
-    | uuid => exact doBody_nil _ _ _
-    | id62 => exact doBody_nil _ _ _
-    | custom p =>
-      -- `pfx.format.custom.pattern = "p"`: reach the format, then the member, then set the pattern
-      have hfbF : findBlock b!"format" [cfOf sKeyField specKeyField (a ++ b)] =
-          some (cfOf sKeyField specKeyField (a ++ b), [b!"format"]) :=
-        findBlock_prop' (show aliasLookup b!"format" specKeyField.aliases = none by decide +kernel)
-          (show sKeyField.hasProperty b!"format" = true by decide +kernel)
-      have hr1 := hr.child_touched [false, true, false, false, false] [.absent, .absent, .absent, .absent, .absent]
-        (n := b!"format") (List.mem_singleton.mpr rfl) (by decide) hfbF pi_KeyField_format specOf_KeyFormat
-        rfl (by decide)
-      have hfbC : findBlock b!"custom" [cfOf sKeyFormat specKeyFormat (a ++ (b ++ [1]))] =
-          some (cfOf sKeyFormat specKeyFormat (a ++ (b ++ [1])), [b!"custom"]) :=
-        findBlock_prop' (show aliasLookup b!"custom" specKeyFormat.aliases = none from rfl)
-          (propInfo_hasProperty pi_KeyFormat_custom)
-      have hr2 := hr1.child_touched ((List.replicate 4 false).set 1 true) (List.replicate 4 .absent)
-        (n := b!"custom") trivial (by decide) hfbC pi_KeyFormat_custom specOf_KeyFormatCustom rfl (by decide)
-      have hfbP : findBlock b!"pattern" [cfOf sKeyFormatCustom specKeyFormatCustom (a ++ (b ++ [1] ++ [1]))] =
-          some (cfOf sKeyFormatCustom specKeyFormatCustom (a ++ (b ++ [1] ++ [1])), [b!"pattern"]) :=
-        findBlock_prop' (show aliasLookup b!"pattern" specKeyFormatCustom.aliases = none from rfl)
-          (propInfo_hasProperty pi_KeyFormatCustom_pattern)
-      have hfmt' : okString p = true := hfmt
-      have h3 := hr2.attr (some (.msg [false] [.absent])) rfl (n := b!"pattern") trivial (by decide) hfbP
-        pi_KeyFormatCustom_pattern (cur := .absent) rfl rfl (.inl rfl)
-        (val := strValue p) (v := .str p) (asArray_strValue _)
-        (by simp only [scalarFromAST, asString_strValue (isAscii_of_okString hfmt')]; rfl)
-      have hkey : pfx ++ [b!"format"] ++ [b!"custom"] ++ [b!"pattern"] = pfx ++ [b!"format", b!"custom", b!"pattern"] := by
-        simp
-      rw [hkey, storeNode_str] at h3
-      exact doBody_cons h3 (doBody_nil _ _ _)
+    intro sc pfx a b C hr _
+    rw [key_fieldBody fmt ek false pfx]
+    have hnE : b!"entity" ∈ [b!"format", b!"entity", b!"foreign"] := by simp
+    have hnF : b!"foreign" ∈ [b!"format", b!"entity", b!"foreign"] := by simp
+    -- the format line (custom only), then the entity-key lines
+    have hfmtB : Exact (doBody j5Env sc (keyFmtBody pfx fmt)) a (C (some (keyQualVal fmt))) ()
+        (C (some (.msg [false, fmt != .none, false, false, false]
+          [.absent, keyFmtNode fmt, .absent, .absent, .absent]))) := by
+      cases fmt with
+      | none => exact doBody_nil _ _ _
+      | informal => exact doBody_nil _ _ _
+      | uuid => exact doBody_nil _ _ _
+      | id62 => exact doBody_nil _ _ _
+      | custom p =>
+        have hfbF : findBlock b!"format" [cfOf sKeyField specKeyField (a ++ b)] =
+            some (cfOf sKeyField specKeyField (a ++ b), [b!"format"]) :=
+          findBlock_prop' (show aliasLookup b!"format" specKeyField.aliases = none by decide +kernel)
+            (show sKeyField.hasProperty b!"format" = true by decide +kernel)
+        have hr1 := hr.child_touched [false, true, false, false, false] [.absent, .absent, .absent, .absent, .absent]
+          (n := b!"format") (show b!"format" ∈ [b!"format", b!"entity", b!"foreign"] by simp) (by decide) hfbF
+          pi_KeyField_format specOf_KeyFormat rfl (by decide)
+        have hfbC : findBlock b!"custom" [cfOf sKeyFormat specKeyFormat (a ++ (b ++ [1]))] =
+            some (cfOf sKeyFormat specKeyFormat (a ++ (b ++ [1])), [b!"custom"]) :=
+          findBlock_prop' (show aliasLookup b!"custom" specKeyFormat.aliases = none from rfl)
+            (propInfo_hasProperty pi_KeyFormat_custom)
+        have hr2 := hr1.child_touched ((List.replicate 4 false).set 1 true) (List.replicate 4 .absent)
+          (n := b!"custom") trivial (by decide) hfbC pi_KeyFormat_custom specOf_KeyFormatCustom rfl (by decide)
+        have hfbP : findBlock b!"pattern" [cfOf sKeyFormatCustom specKeyFormatCustom (a ++ (b ++ [1] ++ [1]))] =
+            some (cfOf sKeyFormatCustom specKeyFormatCustom (a ++ (b ++ [1] ++ [1])), [b!"pattern"]) :=
+          findBlock_prop' (show aliasLookup b!"pattern" specKeyFormatCustom.aliases = none from rfl)
+            (propInfo_hasProperty pi_KeyFormatCustom_pattern)
+        have hfmt' : okString p = true := hfmt
+        have h3 := hr2.attr (some (.msg [false] [.absent])) rfl (n := b!"pattern") trivial (by decide) hfbP
+          pi_KeyFormatCustom_pattern (cur := .absent) rfl rfl (.inl rfl)
+          (val := strValue p) (v := .str p) (asArray_strValue _)
+          (by simp only [scalarFromAST, asString_strValue (isAscii_of_okString hfmt')]; rfl)
+        have hkey : pfx ++ [b!"format"] ++ [b!"custom"] ++ [b!"pattern"] =
+            pfx ++ [b!"format", b!"custom", b!"pattern"] := by simp
+        rw [hkey, storeNode_str] at h3
+        exact doBody_cons h3 (doBody_nil _ _ _)
+    exact doBody_append hfmtB (entKey_exact hr hnE hnF rfl rfl hek)
 
 /-- every scalar field (with rules) has its facts -/
 theorem scalarFacts' {f : CField} (h : fieldOk2 f = true) : ∃ ff : FieldFacts f, ff.blockNames = [] := by
